@@ -25,7 +25,7 @@ verus! {
     ensures final(name).wf(), final(name).labels_bounded(),
         final(decoder).wf(), final(decoder).buf() == old(decoder).buf(), final(decoder).idx() >= old(decoder).idx(),
         r is Ok ==> final(name).is_fqdn && final(decoder).idx() > old(decoder).idx(),
-//%after "let mut name_start = decoder.index();"
+//%before "loop"
     let ghost outer_buf = decoder.buf();
     let ghost outer_idx0 = decoder.idx();
     let ghost outer_fin = *final(decoder);
